@@ -66,6 +66,7 @@ impl Cov {
 
 /// Check one coverage output; returns its value (for the operator search).
 pub fn check_cov(q: &Cov, part: &mut Part) -> (Option<Bm>, Option<Viol>) {
+  journal(q.api(), || q.to_json());
   let b = match q.run() {
     Ok(b) => b,
     Err(_) => return (None, None), // a panic is the business of C05 / C12 / C13
@@ -149,6 +150,7 @@ fn builder_case(kind: &str, depth: u8, full: bool, cap: usize, pushes: &[u64]) -
 }
 
 pub fn check_fixed_builder(depth: u8, full: bool, cap: usize, pushes: &[u64], part: &mut Part) -> Option<Viol> {
+  journal("BMOCBuilderFixedDepth", || builder_case("fixed-builder", depth, full, cap, pushes));
   let pv = pushes.to_vec();
   let r = guarded(move || {
     let mut b = BMOCBuilderFixedDepth::with_capacity(depth, full, cap);
@@ -165,6 +167,7 @@ pub fn check_fixed_builder(depth: u8, full: bool, cap: usize, pushes: &[u64], pa
 }
 
 pub fn check_unsafe_builder(bm: &Bm, op: &str, new_depth: Option<u8>, part: &mut Part) -> Option<Viol> {
+  journal("BMOCBuilderUnsafe", || json!({"kind": "unsafe-builder", "op": op, "input": bm.to_json(), "new_depth": new_depth}));
   let entries = bm.entries.clone();
   let dm = bm.depth_max;
   let opn = op.to_string();
